@@ -522,6 +522,14 @@ func formatValue(v interface{}) string {
 		return joinInterfaceSlice(v)
 	case []uint64:
 		return joinUint64Slice(v)
+	case []int64:
+		other := make([]string, len(v))
+		for i := range v {
+			other[i] = strconv.FormatInt(v[i], 10)
+		}
+		return "[" + strings.Join(other, ",") + "]"
+	case nil:
+		return "null"
 	case time.Time:
 		return fmt.Sprintf("\"%s\"", v.Format(timeFormat))
 	case *Condition:
